@@ -155,19 +155,27 @@ CHECKS = {
     "C10": dict(
         text="Coq theorems about an executable model of the parser (the pigeon grammar REGENERATED from grammar.peg.go on every build, a "
              "pigeon-semantics interpreter, the 44 semantic actions): termination on every input from a verified well-formedness check; "
-             "fuel-independence; Thrift enum numbering (within the 64-bit range; the wrap beyond it is a refuted witness and known finding); "
+             "fuel-independence; Thrift enum numbering over the whole 64-bit range (error exactly when Thrift's numbering leaves it); keywords end at a word "
+             "boundary for every continuation (c10_keyword_boundary) and FieldType takes the longest match on every keyword-prefixed name; "
              "identifier, integer, constant-value, field-type and scope-prefix round trips; parse(render m)=m proved end to end for files of "
              "typedef, enum, struct, exception and union (fields with ids, modifiers, nested container types, all separator styles), const "
              "(integer or plain string values) and service (methods with oneway, void or typed return, arguments, throws) declarations in every "
              "blank and line-break style (c10_roundtrip_structs_partial; partial: named types, defaults, other constant kinds, extends, scopes, "
-             "includes, comments and annotations rest on correspondence). The full round trip is refuted on the code by eight proved witnesses "
-             "(known findings). Tied to the real parser on every run in four ways: every generated text and program is parsed by both (trees and "
+             "includes, comments and annotations rest on correspondence). The full round trip is refuted on the code by one proved witness "
+             "(C10-F16); eleven former witnesses are positive theorems after repair. Tied to the real parser on every run in four ways: every generated text and program is parsed by both (trees and "
              "error lists equal); every generated instance of the proved fragment is checked INSIDE Coq to satisfy the theorem's hypotheses "
              "(checker proved sound) and to give, on the real parser, exactly the theorem's tree; a model-free oracle; the -gen json descriptor "
-             "as a second view.",
+             "as a second view; a structural comparison of grammar.peg with the generated grammar.peg.go (rules, nodes, literals, classes, "
+             "action names and code). ParseFrugal on program texts is replayed on Model/ParserFiles.v parse_program, DEFINED from C11's "
+             "cvalidate/cparse_program (one transcription of Frugal.validate/parseFrugal; c10_validate_agrees_with_c11, "
+             "c10_parse_program_agrees_with_c11); accepted files satisfy the repaired checks (c10_validated_file); ParseFrugal answers tree or "
+             "error on every program whose names the grammar can produce (c10_parse_program_checked_total, hypothesis evaluated by the judge "
+             "on every case); programs with one injected semantic fault (13 kinds) and 25 fixed invalid declarations must be rejected with "
+             "the exact diagnostic by code and model.",
         note="Trusted: Coq kernel + vm_compute; the go/ast translator of the grammar literal (counts re-checked in Coq); hand transcription of the action bodies "
              "and of strconv.Unquote/ParseInt/ParseFloat, strings.*, filepath.Base, two regexps (validated by correspondence, for the fragment also by the "
-             "theorem-instance judge); harness as test equipment. Error line/column not modelled. Twelve parser defects are known findings (new: C10-F22).",
+             "theorem-instance judge); harness as test equipment. Error line/column, syntax-error text and host paths not modelled (validate's diagnostics are compared byte for byte). One parser defect "
+             "remains a known finding (C10-F16: line break inside a declaration head); F8a-e, F17-F20, F22, F23 repaired.",
         technique="PEG interpreter model + regenerated grammar + verified wf checker + big-step derivation calculus for round-trip proofs + correspondence "
                   "judge + theorem-instance judge",
         design="5/C10"),
